@@ -10,3 +10,10 @@ include!(concat!(env!("OUT_DIR"), "/neon_port.rs"));
 pub type Neon = reed_solomon_simd::engine::NoSimd;
 
 pub const AVAILABLE: bool = cfg!(feature = "neon-port");
+
+/// engine_default.rs as compiled for AArch64 (see build.rs), on the emulated Neon engine
+#[cfg(feature = "neon-port")]
+pub mod default_arm {
+    #![allow(unused_imports, dead_code, clippy::all)]
+    include!(concat!(env!("OUT_DIR"), "/default_arm_port.rs"));
+}
